@@ -4,6 +4,15 @@ import random
 
 from hl import Scen
 
+CTOR_RNG = random.Random(1)
+
+
+def reseed(seed):
+    """constructor variety (try_new / new / new_ref) is drawn from this generator"""
+    global CTOR_RNG
+    CTOR_RNG = random.Random(seed * 7919 + 13)
+
+
 KINDS = ["boxed", "ref", "retry", "owned"]
 CONTS = ["vec", "bslice", "arr", "tup"]
 
@@ -51,7 +60,17 @@ class B:
             uid = self.nuids
             self.nuids += 1
         if ctor is None:
-            ctor = "new" if kind == "owned" else "try"
+            # the unchecked constructors build the same collection (the builder never passes duplicates); new_ref only
+            # exists for boxed / retrying and is wired for the non-Vec containers
+            r = CTOR_RNG.random()
+            if kind == "owned":
+                ctor = "new"
+            elif r < 0.3:
+                ctor = "new"
+            elif r < 0.45 and kind in ("boxed", "retry") and cont != "vec":
+                ctor = "newref"
+            else:
+                ctor = "try"
         locks = [l for m in members for l in self.locks_of[m]]
         if cont == "tup" and not (1 <= len(members) <= 7):
             cont = "vec"
